@@ -432,6 +432,10 @@ def rule_r4(chk, p, t, ea):
     def route_obs():
         apps = [c for c in find_calls(step.node, "append") if isinstance(c.func.value, ast.Subscript) and isinstance(c.func.value.value, ast.Name)]
         apps = [c for c in apps if c.func.value.value.id == "obs_dict"]
+        if not apps:
+            grouped = _grouped_routing(step, p, t, r, pm)
+            if grouped:
+                return
         require(len(apps) == 1, "stepForward does not append to obs_dict exactly once", step.node)
         c = apps[0]
         loops = [a for a in _ancestors(c, pm) if isinstance(a, ast.For)]
@@ -591,6 +595,56 @@ def run(chk, p, t):
                 rr.undecided(fn.__name__, str(e))
             else:
                 rr.error(fn.__name__, f"vanished anchor: {e}")
+
+
+def _grouped_routing(step, p, t, r, pm):
+    """Routing through a grouping helper: `for k, v in <engine>.<helper>().items(): obs_dict[k].extend(v)`.
+    Decides the helper: a plain bucket loop keeps every observation; itertools.groupby keeps them only when its
+    input is sorted by the same key (it splits on *adjacent* keys and a dict built from it keeps the last run)."""
+    exts = [c for c in find_calls(step.node, "extend") if isinstance(c.func.value, ast.Subscript) and isinstance(c.func.value.value, ast.Name) and c.func.value.value.id == "obs_dict"]
+    exts += [n for n in walk_no_nested(step.node) if isinstance(n, ast.Assign) and isinstance(n.targets[0], ast.Subscript) and isinstance(n.targets[0].value, ast.Name) and n.targets[0].value.id == "obs_dict"]
+    if len(exts) != 1:
+        return False
+    c = exts[0]
+    loops = [a for a in _ancestors(c, pm) if isinstance(a, ast.For)]
+    if not loops:
+        return False
+    lp = loops[0]
+    it = lp.iter
+    if not (isinstance(it, ast.Call) and isinstance(it.func, ast.Attribute) and it.func.attr == "items" and isinstance(it.func.value, ast.Call)):
+        return False
+    cons = step.qualname + ":obs_dict"
+    helpers = [tg for tg in t.callees(it.func.value, step) if hasattr(tg, "node")]
+    if len(helpers) != 1:
+        return False
+    h = helpers[0]
+    rets = [n for n in walk_no_nested(h.node) if isinstance(n, ast.Return) and n.value is not None]
+    if len(rets) != 1:
+        return False
+    rv = rets[0].value
+    if isinstance(rv, ast.DictComp) and isinstance(rv.generators[0].iter, ast.Call) and call_name(rv.generators[0].iter) == "groupby":
+        g = rv.generators[0].iter
+        seq = g.args[0] if g.args else None
+        keyf = next((unparse(k.value) for k in g.keywords if k.arg == "key"), unparse(g.args[1]) if len(g.args) > 1 else None)
+        sorted_same = isinstance(seq, ast.Call) and call_name(seq) == "sorted" and next((unparse(k.value) for k in seq.keywords if k.arg == "key"), None) == keyf
+        if sorted_same:
+            r.ok(cons, f"grouped by {keyf} over a sequence sorted by the same key", h.loc(rv))
+        else:
+            r.violation(cons, f"groupby-unsorted:{unparse(seq)[:40]}", f"{h.qualname} groups `{unparse(seq)[:60]}` with itertools.groupby without sorting it by the same key: groupby splits on adjacent keys only and the dict keeps the last run, so when one target's observations arrive from two jobs that are not adjacent in completion order all but the last run are dropped - which observations reach the filter depends on the order the jobs finish", h.loc(rv))
+        return True
+    # bucket loop: d[o.target_id].append(o) / d.setdefault(o.target_id, []).append(o) over all observations
+    if isinstance(rv, ast.Name):
+        apps = [a for a in find_calls(h.node, "append") if unparse(a.func.value).startswith(rv.id)]
+        for a in apps:
+            lps = [x for x in _ancestors(a, parents_map(h.node)) if isinstance(x, ast.For)]
+            if lps and isinstance(lps[0].target, ast.Name):
+                v = lps[0].target.id
+                keyed = f"{v}.target_id" in unparse(a.func.value) and a.args and unparse(a.args[0]) == v
+                cond = [x for x in _ancestors(a, parents_map(h.node)) if isinstance(x, (ast.If, ast.Try)) and lps[0] in _ancestors(x, parents_map(h.node))]
+                if keyed and not cond and "observations" in unparse(lps[0].iter):
+                    r.ok(cons, f"{h.qualname} buckets every observation under its own target_id", h.loc(a))
+                    return True
+    return False
 
 
 def rule_r5(chk, p, t, ea):
